@@ -444,9 +444,38 @@ def run(ctx):
     hc = [n for n in ast.walk(ro.node) if isinstance(n, ast.Call) and isinstance(n.func, ast.Name) and n.func.id == holder.name]
     okh = len(hc) == 1 and len(hc[0].args) == 2
     if okh:
-        # (content, path) from the deserialised pair, in the holder's parameter order
-        tgt = [n for n in walk_own(ro.node) if isinstance(n, ast.Assign) and isinstance(n.targets[0], ast.Tuple)]
-        okh = bool(tgt) and [x.id for x in tgt[0].targets[0].elts] == [hc[0].args[1].id, hc[0].args[0].id] if all(isinstance(a, ast.Name) for a in hc[0].args) else False
+        # what the deserialiser hands back, by position / by field name: the recorded path (read from the envelope) and the content
+        def role_of(e):
+            return 'path' if any(isinstance(x, ast.Subscript) and isinstance(x.slice, ast.Constant) and x.slice.value == 'file_path' for x in ast.walk(e)) else 'content'
+        by_pos, by_field = {}, {}
+        for r_ in [n for n in walk_own(des.node) if isinstance(n, ast.Return) and n.value is not None]:
+            v_ = r_.value
+            if isinstance(v_, ast.Tuple):
+                by_pos = {i: role_of(e) for i, e in enumerate(v_.elts)}
+            elif isinstance(v_, ast.Call) and isinstance(v_.func, ast.Name):
+                by_field = {k.arg: role_of(k.value) for k in v_.keywords if k.arg}
+                by_pos = {i: role_of(e) for i, e in enumerate(v_.args)}
+        local_role = {}
+        holders = {}
+        for n in walk_own(ro.node):
+            if isinstance(n, ast.Assign) and isinstance(n.value, ast.Call) and self_attr(n.value.func) == des.name:
+                t0 = n.targets[0]
+                if isinstance(t0, ast.Tuple):
+                    for i, x in enumerate(t0.elts):
+                        if isinstance(x, ast.Name):
+                            local_role[x.id] = by_pos.get(i)
+                elif isinstance(t0, ast.Name):
+                    holders[t0.id] = True
+
+        def arg_role(a):
+            if isinstance(a, ast.Name):
+                return local_role.get(a.id)
+            if isinstance(a, ast.Attribute) and isinstance(a.value, ast.Name) and a.value.id in holders:
+                return by_field.get(a.attr)
+            if isinstance(a, ast.Subscript) and isinstance(a.value, ast.Name) and a.value.id in holders and isinstance(a.slice, ast.Constant):
+                return by_pos.get(a.slice.value)
+            return None
+        okh = [arg_role(a) for a in hc[0].args] == ['content', 'path']
     cd.instance('output restore: holder built from (content, recorded path)', ro.qualname, okh)
     if not okh:
         res.add(Finding('C20', 'C20.d', 'R-PROV', ro.file, ro.qualname, ro.node.lineno, 'output holder', 'the output holder is not built from the deserialised (content, path) pair in that order'))
